@@ -834,6 +834,9 @@ def run(chk):
     for t in (traces[3], traces[len(traces) // 2], traces[-1]):
         chk.sample(dict(t, ev=t["ev"][:6], prog="(omitted)"))
     chk.validate("ContextTrace", "ContextTrace.cfg", traces, key_of=key_of, batch=2000)
+    # job R: behaviours of the context-stack design chosen by TLC's simulator, replayed through the real controllers
+    from . import c18_replay
+    c18_replay.run_replay(chk)
 
 
 def selftest(chk):
